@@ -234,12 +234,62 @@ fn case(rng: &mut Rng, pools: &mut Pools, rep: &mut Report, case_no: u64) {
             chain = ch;
         }
         let dname = driver.name();
+        // a third of the victims that live inside a (hand-written) batch controller: the controller
+        // catches the panic of its inner dispatch and dispatches again in the same frame
+        let in_hctl = chain.last().map_or(false, |b| plan.find_batch(*b).map_or(false, |bs| !bs.multi));
+        let catching = in_hctl && victims.len() == 1 && rng.chance(1, 3);
+        ctx.ctl_catches.store(catching, SeqCst);
+        ctx.ctl_caught.store(0, SeqCst);
         let out = inst.run(m, driver);
+        ctx.ctl_catches.store(false, SeqCst);
         for v in &victims {
             ctx.inject[*v as usize].store(INJ_NONE, SeqCst);
         }
         let _ = crate::sys::take_pool_panics();
         let mut problems: Vec<(String, String)> = Vec::new();
+        if catching && ctx.ctl_caught.load(SeqCst) > 0 {
+            rep.metric("panics_caught_by_a_batch_controller", 1);
+            if let Some(p) = &out.panic {
+                problems.push(("panic_after_controller_retry".into(), format!("a batch controller caught the inner panic and dispatched again; that second inner dispatch (or the rest of the outer dispatch) panicked: {}", p)));
+            }
+            for v in ctx.take_violations() {
+                if let Some(m) = v.strip_prefix("c14: ") {
+                    problems.push(("controller_retry_not_exactly_once".into(), m.to_string()));
+                }
+            }
+            for s in Slot::all() {
+                let p = probe(&inst.world, s);
+                if p != Probe::Free {
+                    problems.push(("borrow_leaked".into(), format!("after the controller's retry, {} is still {:?}", s.label(), p)));
+                    break;
+                }
+            }
+            if problems.is_empty() {
+                let before = ctx.run_counts();
+                let out2 = inst.run(m, Arc::new(Free));
+                if let Some(p) = &out2.panic {
+                    problems.push(("next_dispatch_panicked".into(), format!("the dispatch after a controller-caught panic panicked: {}", p)));
+                } else {
+                    let e1 = expected_counts(&plan, m, n_uids);
+                    let now = ctx.run_counts();
+                    for u in 1..n_uids {
+                        if now[u] - before[u] != e1[u] {
+                            problems.push(("next_dispatch_not_exactly_once".into(), format!("in the dispatch after a controller-caught panic u{} ran {} times, expected {}", u, now[u] - before[u], e1[u])));
+                            break;
+                        }
+                    }
+                }
+            }
+            let _ = ctx.take_violations();
+            let mut seen = BTreeSet::new();
+            for (k, msg) in &problems {
+                if seen.insert(k.clone()) {
+                    rep.violation(k, msg, case_no, J::obj().set("plan", plan.to_json()).set("layout", inst.layout.to_json()).set("victims", J::from(victims.clone())).set("mode", m.name()).set("pool", pool_size));
+                }
+            }
+            rep.nontrivial(mix(mix(plan.hash(), victim as u64), 0xca7c4));
+            continue;
+        }
         let fired: Vec<u32> = victims.iter().cloned().filter(|v| ctx.fired[*v as usize].load(SeqCst) > 0).collect();
         rep.metric("panic_dispatches", 1);
         rep.metric(&format!("mode_{}", m.name().replace('+', "_")), 1);
